@@ -58,8 +58,8 @@ claim(
 claim(
     "C02",
     "Lean 4 proof (soundness and completeness of the parser model w.r.t. an inductive grammar, separator-exchange, token-cover) + regenerated grammar/lexer tables + differential correspondence with sly's lexer and parser",
-    "Theorems C02_sound, C02_complete, C02_unique, C02_accepts_iff, C02_no_fuel_error prove that the parser model accepts a token string exactly when the Jaqal grammar (an independent inductive derivation relation) derives it, with a unique tree; C02_sep_exchange(_semi/_bar/_result) that exchanging any subset of `;`/`|` separators with newlines never changes the result; C02_no_drop that lexing covers the text with blanks, comments and exactly the reported tokens in order (nothing outside a comment is dropped); C02_error_pos_partial that a reported error position is a token start of the text, the offset where lexing fails, or EOF. The model is tied to /repo by table regeneration (88 productions, token rules, zero sly conflicts) and by exact comparison of acceptance, S-expression and (line, column) on grammar-directed programs under random layout, token and character mutants and noise.",
-    COMMON_NOTE + "Not proved (kept as named propositions, covered by direct oracles on the real code): the viability half of the error-position statement (C02_error_pos_full) and the text-level comment/blank insertion statement (C02_layout_full). sly's LALR construction and Python `re` are trusted.",
+    "Theorems C02_sound, C02_complete, C02_unique, C02_accepts_iff, C02_no_fuel_error prove that the parser model accepts a token string exactly when the Jaqal grammar (an independent inductive derivation relation) derives it, with a unique tree; C02_sep_exchange(_semi/_bar/_result) that exchanging any subset of `;`/`|` separators with newlines never changes the result; C02_no_drop that lexing covers the text with blanks, comments and exactly the reported tokens in order (nothing outside a comment is dropped); C02_layout that inserting or removing, between two tokens, blanks, block comments, line comments in front of a newline and blank lines next to a newline never changes acceptance or the tree (text level, every text); C02_error_pos_partial that a reported error position is a token start of the text, the offset where lexing fails, or EOF. The model is tied to /repo by table regeneration (88 productions, token rules, zero sly conflicts) and by exact comparison of acceptance, S-expression and (line, column) on grammar-directed programs under random layout, token and character mutants and noise.",
+    COMMON_NOTE + "Not proved (kept as a named proposition, covered by the direct oracle reject_position on the real code): the viability half of the error-position statement (C02_error_pos_full: the reported token is the FIRST one no continuation can follow). sly's LALR construction and Python `re` are trusted.",
     "DESIGN.md §7 C02",
 )
 claim(
